@@ -7,6 +7,10 @@ from checks import c01
 
 
 def run(ctx):
+    if getattr(ctx, "replay", None):
+        from checks import execreplay
+        if execreplay.replay(ctx, "C04"):
+            return
     ctx.assumptions += [
         "'the process keeps serving' is observed (the generated server's runner survives every case and answers the next one), not proved",
         "panics are modelled at user-code call sites (resolver, schema directive); a recover at every goroutine boundary of the generated code is a regenerated fact (Gen/GoBoundaries)",
